@@ -224,4 +224,11 @@ def run(repo, tier):
     res.floor('SIB', 4)
     res.floor('NEGZERO', 2)
     res.floor('T-AXIS', 20)
+    from .common import run_clone_pairs
+    run_clone_pairs(repo, res, {m for m in repo.modules if m.startswith('photutils.detection') and '.tests' not in m})
+    from .C15 import conversions
+    conversions(repo, res)
+    from .common import run_truthy_none
+    if run_truthy_none(repo, res, MODS) < 1:
+        raise AnalysisError('vanished anchor: optional numeric finder parameters')
     return res
